@@ -361,6 +361,7 @@ class EvalErr(Exception):
 
 
 import re  # noqa: E402
+import time  # noqa: E402
 import sys  # noqa: E402
 if hasattr(sys, 'set_int_max_str_digits'):
     sys.set_int_max_str_digits(0)        # exact model replies can have thousands of digits
@@ -648,35 +649,55 @@ class Hang(Exception):
     """the real code did not return within the CPU-time limit."""
 
 
-_WATCH = {'fired': False, 'limit': 10.0, 'hangs': []}
+_WATCH = {'fired': False, 'limit': 10.0, 'hangs': [], 'on': False, 't0': None, 'old': None, 'count': {}}
 
 
 def _on_vtalrm(signum, frame):
-    _WATCH['fired'] = True
-    raise Hang('no result within the CPU-time limit')
+    t0 = _WATCH['t0']
+    if t0 is not None and time.process_time() - t0 > _WATCH['limit']:
+        _WATCH['fired'] = True
+        raise Hang('no result within the CPU-time limit')
+
+
+def _watch_on():
+    import signal
+    _WATCH['old'] = signal.signal(signal.SIGVTALRM, _on_vtalrm)
+    signal.setitimer(signal.ITIMER_VIRTUAL, 0.02, 0.02)
+    _WATCH['on'] = True
+
+
+def _watch_off():
+    import signal
+    if _WATCH['on']:
+        signal.setitimer(signal.ITIMER_VIRTUAL, 0.0)
+        signal.signal(signal.SIGVTALRM, _WATCH['old'] or signal.SIG_DFL)
+        _WATCH['on'] = False
 
 
 def _timed(fn, *a, **k):
-    """call into the real code under a CPU-time watchdog (ITIMER_VIRTUAL; `check` itself uses the real-time alarm),
-    so that a loop that never ends is reported as the failing input instead of stalling the run. The timer repeats
-    (set_literal's bare `except:` can swallow one delivery, not all of them); after the first hang the limit drops so
-    that a systematically hanging implementation does not cost 10 s per case."""
-    import signal
-    old = signal.signal(signal.SIGVTALRM, _on_vtalrm)
-    signal.setitimer(signal.ITIMER_VIRTUAL, _WATCH['limit'], 0.003)
+    """call into the real code under a CPU-time watchdog (one repeating ITIMER_VIRTUAL for the whole phase — `check`
+    itself uses the real-time alarm; the handler looks at the CPU time the current call has used), so that a loop
+    that never ends is reported as the failing input instead of stalling the run. The timer repeats (set_literal's
+    bare `except:` can swallow one delivery, not all of them); after the first hang the limit drops so that a
+    systematically hanging implementation does not cost 10 s per case."""
+    if not _WATCH['on']:
+        _watch_on()
+    name = getattr(fn, '__name__', str(fn))
+    _WATCH['t0'] = time.process_time()
     try:
         return fn(*a, **k)
     finally:
-        signal.setitimer(signal.ITIMER_VIRTUAL, 0.0)
-        signal.signal(signal.SIGVTALRM, old)
+        _WATCH['t0'] = None
         if _WATCH['fired']:
             _WATCH['fired'] = False
+            _WATCH['count'][name] = _WATCH['count'].get(name, 0) + 1
             if len(_WATCH['hangs']) < 5:
                 _WATCH['hangs'].append((getattr(fn, '__name__', str(fn)), repr(a)[:300], _WATCH['limit']))
-            _WATCH['limit'] = 0.05
+            _WATCH['limit'] = 0.03
 
 
 def _report_hangs(ctx):
+    _watch_off()
     for name, args, limit in _WATCH['hangs'][:1]:
         ctx.violate('hang:' + name, f'uc.{name}{args} did not return within {limit} s of CPU time',
                     {'op': 'hang', 'fn': name, 'args': args})
@@ -1332,8 +1353,6 @@ def _apply_any(cfg, uc):
             _timed(uc.reset_units, **cfg['kw'])
             return 'ok', [float(getattr(nu, b)) for b in BASE]
         return 'ok', _apply(cfg)
-    except Hang:
-        raise
     except Exception as e:  # noqa
         return 'raised', e
 
@@ -1494,8 +1513,6 @@ class _Session:
                 for label, f in reads.items():
                     try:
                         v = f()
-                    except Hang:
-                        raise
                     except Exception as ex:  # noqa
                         v = f'{type(ex).__name__}: {ex}'
                     if isinstance(v, str) or not abs(v - 1.0) <= 64 * U:
@@ -1524,8 +1541,6 @@ class _Session:
                 want = [Fraction(x) * a[3] / b[3] for x in xs]
                 try:
                     gotv = np.asarray(_timed(uc.get_in_units, _timed(uc.set_in_units, np.array(xs), s1), s2)).tolist()
-                except Hang:
-                    raise
                 except Exception as ex:  # noqa
                     gotv = f'{type(ex).__name__}: {ex}'
                 if isinstance(gotv, str) or any(g != g or abs(g) == float('inf') or
@@ -1540,8 +1555,6 @@ class _Session:
             want = lit_value(value) * v
             try:
                 gotv = float(_timed(uc.set_literal, term))
-            except Hang:
-                raise
             except Exception as ex:  # noqa
                 gotv = f'{type(ex).__name__}: {ex}'
             if isinstance(gotv, str) or not abs(Fraction(gotv) - want) <= Fraction(_tol(want, e + 2)):
@@ -1619,8 +1632,6 @@ class _Session:
             try:
                 r = np.asarray(_timed(uc.get_in_units, _timed(uc.set_in_units, np.array(xs), s1), s2))
                 impl = r.tolist() if r.shape == (3,) and np.isfinite(r).all() else 'err'
-            except Hang:
-                raise
             except Exception:  # noqa
                 impl = 'err'
             lines.append('conv 3 ' + ' '.join(cm.fr(x) for x in xs) + ' ' + _cps(s1) + ' | ' + _cps(s2))
@@ -1646,8 +1657,6 @@ class _Session:
             try:
                 r = _timed(uc.set_literal, term)
                 impl = float(r) if np.ndim(r) == 0 else 'err'
-            except Hang:
-                raise
             except Exception:  # noqa
                 impl = 'err'
             msg = _cmp_val(impl, out, lambda mv, it=it: bound(mv, it[4] + 2, it[2]))
@@ -2099,8 +2108,6 @@ def _o_setlit(ctx, uc, cfg, value, s, sep, vals, lead='', trail=''):
     try:
         r = np.asarray(_timed(uc.set_literal, term))
         got = r.ravel().tolist() if r.shape == _shape_of(val) else f'an array of shape {r.shape}'
-    except Hang:
-        raise
     except Exception as ex:  # noqa
         got = f'{type(ex).__name__}: {ex}'
     if isinstance(got, str) or any(not abs(Fraction(g) - w) <= Fraction(_tol(w, cls[2] + 2)) for g, w in zip(got, want)):
